@@ -375,3 +375,46 @@ def _inline_contract(variant, target):
 
 _inline_contract("", b"EI")
 _inline_contract("#ascii85", b"~>")
+
+
+# -- A-FILLBUF, base-parser half: PSBaseParser.fillbuf keeps the window while bytes are left in it, else installs the next non-empty
+#    window at the file position, or raises PSEOF at the end (PDFContentParser.fillbuf adds the hop to the next content stream: bounded only) -----
+PSm = real_module("pdfminer.psparser")
+
+
+class _FpAt(T.Sort):
+    """a file positioned at `pos` whose read(n) returns the next min(n, left) bytes of the uninterpreted content"""
+    def fresh(self, ctx, name):
+        pos, left = ctx.fresh_int(name + ".pos"), ctx.fresh_int(name + ".left")
+        ctx.assume(z3.And(pos >= 0, left >= 0))
+        o = SObj(None, {"_pos": pos, "_left": left}, name)
+
+        def tell(I, o=o):
+            return o.f["_pos"]
+
+        def read(I, n, o=o):
+            take = If(lt(o.f["_left"], n), o.f["_left"], n)
+            w = _window(I.ctx, o.f["_pos"], take)
+            o.f["_pos"], o.f["_left"] = o.f["_pos"] + take, o.f["_left"] - take
+            return w
+        o.f["tell"], o.f["read"] = SymFn(tell, "tell"), SymFn(read, "read")
+        return o
+    def sample(self, rng):
+        return None
+    def from_model(self, ev, v):
+        return dict(pos=int(ev(v.f["_pos"])), left=int(ev(v.f["_left"])))
+
+
+c = contract("pdfminer.psparser:PSBaseParser.fillbuf", props=["C18", "C14"])
+c.param("self", T.Obj("pdfminer.psparser:PSBaseParser", buf=_Window(), charpos=T.Int(0), bufpos=T.Int(0), fp=_FpAt(), BUFSIZ=T.Int(1, 65536)))
+c.skip_cross = True
+c.inline = True
+c.req("cursor-inside-the-window", lambda self: le(self.charpos, self.buf.n))
+for f in ("buf", "charpos", "bufpos", "fp._pos", "fp._left"):
+    c.mod("self." + f)
+c.may_raise(PSm.PSEOF, lambda self, old: And(eq(old.self.charpos, old.self.buf.n), eq(old.self.fp._left, 0)))
+c.ens("window-kept-or-replaced-by-the-next-non-empty-one", lambda self, old: If(
+    lt(old.self.charpos, old.self.buf.n),
+    And(eq(self.charpos, old.self.charpos), eq(self.bufpos, old.self.bufpos), eq(self.buf.n, old.self.buf.n), eq(self.buf.base, old.self.buf.base), eq(self.fp._pos, old.self.fp._pos)),
+    And(eq(self.charpos, 0), eq(self.bufpos, old.self.fp._pos), eq(self.buf.base, old.self.fp._pos), lt(0, self.buf.n), le(self.buf.n, self.BUFSIZ),
+        eq(self.buf.n, If(lt(old.self.fp._left, self.BUFSIZ), old.self.fp._left, self.BUFSIZ)), eq(self.fp._pos, old.self.fp._pos + self.buf.n))))
